@@ -259,7 +259,7 @@ func runC02(x *xctx) *violation {
 	// pick the corpus entry
 	var name string
 	var data []byte
-	limit := 2 << 10
+	limit := 4 << 10
 	if x.tier == "thorough" {
 		limit = 64 << 10
 	}
